@@ -469,7 +469,7 @@ impl<'a> Cx<'a> {
         let mut i = from;
         while i < to {
             let hit: Option<(usize, String)> = match self.style {
-                Style::Resp => self.at(i, "Self :: $i ( & $A [").and_then(|(e, c)| if c[0].starts_with("extract_") { Some((e, kind_of_extract(&c[0]).to_string())) } else { None }),
+                Style::Resp => self.at(i, "Self :: $i ( & $A [").or_else(|| self.at(i, "Command :: $i ( & $A [")).and_then(|(e, c)| if c[0].starts_with("extract_") { Some((e, kind_of_extract(&c[0]).to_string())) } else { None }),
                 Style::Lua => self.at(i, "to_string ( & $A [").map(|(e, _)| (e, "str".to_string())).or_else(|| self.at(i, "to_sds ( & $A [").map(|(e, _)| (e, "sds".to_string()))),
             };
             if let Some((e, k)) = hit {
@@ -527,6 +527,9 @@ fn describe(cx: &Cx, name: &str, body: (usize, usize)) -> Row {
     let (arity, aerr, aidx) = cx.arity(body);
     if let Some(i) = aidx { attributed.insert(i); }
     row.insert("arity".into(), arity.clone());
+    let mut why: Vec<String> = Vec::new();
+    let snippet = |from: usize, n: usize| tk_text(&t[from..(from + n).min(e)]);
+    if arity == "?" { why.push(format!("arity: the guard on the argument count is not one of `len != n`, `len < n`, `len < a || len > b`, `len < n || (len - k) % 2 != 0`, `match len {{ … }}`, `if len == a {{ … }} else if len == b {{ … }} else {{ Err }}`: `{} …`", snippet(s, 24))); }
     row.insert("aerr".into(), aerr.as_ref().map(|x| hexs(x)).unwrap_or_else(|| "x".into()));
     let min_args: usize = {
         let digits: String = arity.chars().skip_while(|c| !c.is_ascii_digit()).take_while(|c| c.is_ascii_digit()).collect();
@@ -537,6 +540,7 @@ fn describe(cx: &Cx, name: &str, body: (usize, usize)) -> Row {
     let mut ctors: BTreeSet<String> = BTreeSet::new();
     for (_, _, c) in cx.all(s, e, "Command :: $i") {
         let n = &c[0];
+        if n.starts_with("extract_") { continue; }
         let mut cs = n.chars();
         let cap: String = match cs.next() { Some(f) => f.to_uppercase().collect::<String>() + cs.as_str(), None => String::new() };
         ctors.insert(cap);
@@ -571,7 +575,7 @@ fn describe(cx: &Cx, name: &str, body: (usize, usize)) -> Row {
                         format!("lit:{}", hexs(&c[0]))
                     } else if bs < be && is_id(&t[bs], "break") { flags_loop = true; "break".into() }
                     else if bs == be { "skip".into() }
-                    else { "?".into() };
+                    else { why.push(format!("unk: the default arm of the option match is none of `return Err(\"…\")`, `return Err(format!(\"…{{}}\", opt))`, `break`, `{{}}`: `{} …`", snippet(bs, 12))); "?".into() };
                     continue;
                 }
                 let names = arm_names(a);
@@ -591,7 +595,7 @@ fn describe(cx: &Cx, name: &str, body: (usize, usize)) -> Row {
                 let mut kinds: Vec<String> = Vec::new();
                 for (xs, xe, k, idx) in cx.extractions(bs, be) {
                     let idx_s = tk_text(&idx);
-                    if !(idx_s == "i" || idx_s.starts_with("i +")) { kinds.push("?".into()); continue; }
+                    if !(idx_s == "i" || idx_s.starts_with("i +")) { kinds.push("?".into()); why.push(format!("opts: an option value is read at index `{}` (expected `i` / `i + n`)", idx_s)); continue; }
                     let (mut kind, err, lits) = cx.modifiers(xe, &k);
                     if kind == "num" { if let Some(ty) = cx.let_type(xs) { kind = kind_of_type(&ty).into(); } }
                     // `VAR = Some(<extraction>.parse()…)`: the type is that of the field `VAR` of the constructor(s) the arm builds
@@ -639,7 +643,7 @@ fn describe(cx: &Cx, name: &str, body: (usize, usize)) -> Row {
     let mut slots_ok = true;
     for (xs, xe, k, idx) in cx.extractions(s, e) {
         if in_loop(xs) { continue; }
-        if k == "?" { slots_ok = false; continue; }
+        if k == "?" { slots_ok = false; why.push(format!("slots: an extraction call that does not end `…[IDX])`: `{} …`", snippet(xs, 14))); continue; }
         if idx.len() != 1 { continue; }
         let n = match &idx[0] { Tk::Num(n) => match num(n) { Some(n) => n, None => continue }, _ => continue };
         if n < cx.first { slots_ok = false; continue; }
@@ -652,7 +656,7 @@ fn describe(cx: &Cx, name: &str, body: (usize, usize)) -> Row {
             if let Some(v) = cx.let_name(xs) { vars.insert(v, pos); }
         }
         if let Some(old) = slots.get(&pos) {
-            if old.kind != kind || old.err != err { slots_ok = false; }
+            if old.kind != kind || old.err != err { slots_ok = false; why.push(format!("slots: argument {} is extracted twice with different kinds / error texts ({} vs {})", pos, old.kind, kind)); }
         }
         slots.insert(pos, Slot { pos, kind, err, lit_idx: lits });
     }
@@ -667,6 +671,7 @@ fn describe(cx: &Cx, name: &str, body: (usize, usize)) -> Row {
     }
     let contiguous = slots.keys().enumerate().all(|(i, p)| *p == i + 1);
     if !contiguous || !slots_ok {
+        if !contiguous { why.push(format!("slots: the literal argument indices read by the arm are not 1..n without a gap: {:?}", slots.keys().collect::<Vec<_>>())); }
         row.insert("slots".into(), "?".into());
         row.insert("opt".into(), "?".into());
     } else {
@@ -703,9 +708,11 @@ fn describe(cx: &Cx, name: &str, body: (usize, usize)) -> Row {
             else { "?".into() };
     }
     if tail == "flags" { tail = "?".into(); }
+    if tail.contains('?') { why.push("tail: the arity rule admits further arguments, but none of `A[n..].iter().map(extract)`, `for i in (n..A.len()).step_by(2)`, `.chunks(2)`, `while i < A.len() { match opt … }`, `A[n..n + k]` is found in the arm".to_string()); }
     row.insert("tail".into(), tail);
     // ---- the conflict rules that follow an option scan: `if COND { return Err("text") }` over the option variables
     let mut checks: Vec<String> = Vec::new();
+    let mut checks_why: Vec<String> = Vec::new();
     if let Some(le) = loop_end {
         // `let v = [a.is_some(), …, flag].iter().filter(|&&x| x).count();`
         let mut counts: BTreeMap<String, String> = BTreeMap::new();
@@ -755,6 +762,7 @@ fn describe(cx: &Cx, name: &str, body: (usize, usize)) -> Row {
                 if let Some((_, c, ix)) = m_at_ix(t, j, "{ return Err ( $s", cx.arr) {
                     let cond = parse_cond(&t[i + 1..j], &var_kw, &counts);
                     let _ = ix;
+                    if cond.is_none() { checks_why.push(format!("checks: a condition after the option loop is not built from option variables with `&&`, `||`, `.is_some()`, `count > n`: `if {}`", tk_text(&t[i + 1..j]))); }
                     checks.push(format!("{}:{}", cond.unwrap_or_else(|| "?".to_string()), hexs(&c[0])));
                 }
             }
@@ -813,6 +821,8 @@ fn describe(cx: &Cx, name: &str, body: (usize, usize)) -> Row {
     }
     conds.sort();
     row.insert("conds".into(), conds.join(";"));
+    for c in &checks_why { why.push(c.clone()); }
+    if !why.is_empty() { row.insert("why".into(), why.join(" | ")); }
     row
 }
 
@@ -857,6 +867,154 @@ fn parse_cond(t: &[Tk], var_kw: &BTreeMap<String, String>, counts: &BTreeMap<Str
     let mut i = 0;
     let r = or_expr(t, &mut i, var_kw, counts)?;
     if i == t.len() { Some(r) } else { None }
+}
+
+// ---------------------------------------------------------------------------------------------
+// normalisation: the translator reads ROLES, not the names a contributor happened to choose
+// ---------------------------------------------------------------------------------------------
+
+fn rename_in(t: &mut [Tk], from: usize, to: usize, old: &str, new: &str) {
+    if old == new { return; }
+    let hi = to.min(t.len());
+    for x in t[from..hi].iter_mut() {
+        if let Tk::Id(v) = x { if v == old { *v = new.to_string(); } }
+    }
+}
+
+/// the function `fn NAME (` … its body braces: (index of `fn`, `{`, `}`)
+fn fn_span(t: &[Tk], name: &str) -> Option<(usize, usize, usize)> {
+    let (s, e, _) = find_pat(t, 0, t.len(), &format!("fn {} (", name), "")?;
+    let close_paren = close_of(t, e - 1)?;
+    let lb = (close_paren..t.len()).find(|i| is_p(&t[*i], "{"))?;
+    let rb = close_of(t, lb)?;
+    Some((s, lb, rb))
+}
+
+/// names of the parameters of the function whose `(` is at `lp` (identifiers directly followed by `:` at depth 1)
+fn param_names(t: &[Tk], lp: usize) -> Vec<String> {
+    let rp = close_of(t, lp).unwrap_or(lp);
+    let mut v = Vec::new();
+    let mut d = 0i32;
+    for i in lp..rp {
+        match &t[i] {
+            Tk::P(x) if x == "(" || x == "[" || x == "<" => d += 1,
+            Tk::P(x) if x == ")" || x == "]" || x == ">" => d -= 1,
+            Tk::Id(n) if d == 1 && i + 1 < rp && is_p(&t[i + 1], ":") && n != "self" => v.push(n.clone()),
+            _ => {}
+        }
+    }
+    v
+}
+
+/// Renames, inside the grammar function, the identifiers that play a role the translator keys on to the names it
+/// expects — so that renaming a local (`elements` → `parts`, `cmd_name` → `name`, `i` → `idx`, `opt` → `word`,
+/// `subcommand` → `sub`, the translator's `args` / `to_string` / `to_sds`) is read like the original — and replaces an
+/// arm that only calls a private helper (`"SET" => Self::parse_set(elements)`) by the helper's body.
+/// What was renamed / inlined is listed in `notes` (evidence).
+fn normalise(t: &mut Vec<Tk>, fn_name: &str, style: Style, notes: &mut Vec<String>) {
+    let (fs, mut lb, mut rb) = match fn_span(t, fn_name) { Some(x) => x, None => return };
+    // (1) the dispatch variable: the first `match X.as_str() {` whose arms are string literals
+    if let Some((ms, _, c)) = find_pat(t, lb, rb, "match $i . as_str ( ) {", "") {
+        let _ = ms;
+        if c[0] != "cmd_name" { notes.push(format!("{}: dispatch variable `{}` read as `cmd_name`", fn_name, c[0])); rename_in(t, lb, rb, &c[0], "cmd_name"); }
+    }
+    // (2) the argument array
+    match style {
+        Style::Resp => {
+            // `Array(Some(X)) if !X.is_empty() =>` of the outer match
+            if let Some((_, _, c)) = find_pat(t, lb, rb, "Array ( Some ( $i ) )", "") {
+                if c[0] != "elements" { notes.push(format!("{}: argument array `{}` read as `elements`", fn_name, c[0])); rename_in(t, lb, rb, &c[0], "elements"); }
+            }
+        }
+        Style::Lua => {
+            // `let ARGS = &PARTS[1..];` and the two conversion closures
+            if let Some((_, _, c)) = find_pat(t, lb, rb, "let $i = & $i [ 1 .. ] ;", "") {
+                if c[0] != "args" { notes.push(format!("{}: argument slice `{}` read as `args`", fn_name, c[0])); rename_in(t, lb, rb, &c[0], "args"); }
+            }
+            for (pat, canon) in [("let $i = | $i : & [ u8 ] | String :: from_utf8_lossy ( $i ) . to_string ( ) ;", "to_string"),
+                                 ("let $i = | $i : & [ u8 ] | SDS :: new ( $i . to_vec ( ) ) ;", "to_sds")] {
+                if let Some((_, _, c)) = find_pat(t, lb, rb, pat, "") {
+                    if c[0] != canon { notes.push(format!("{}: closure `{}` read as `{}`", fn_name, c[0], canon)); rename_in(t, lb, rb, &c[0], canon); }
+                }
+            }
+        }
+    }
+    let arr = if style == Style::Resp { "elements" } else { "args" };
+    // (3) an arm that only calls a private helper with the argument array: the helper's body takes its place
+    let mpos = match find_pat(t, lb, rb, "match cmd_name . as_str ( ) {", "") { Some((_, e, _)) => e - 1, None => return };
+    let mut guard = 0;
+    loop {
+        guard += 1;
+        if guard > 64 { break; }
+        let arms = parse_arms(t, mpos);
+        let mut done = true;
+        for a in &arms {
+            let (bs, be) = a.body;
+            // `[return] [Self::|self.]HELPER([&]ARR[, …literal args])[?][;]` and nothing else
+            let mut i = bs;
+            if i < be && is_id(&t[i], "return") { i += 1; }
+            if i + 1 < be && (is_id(&t[i], "Self") && is_p(&t[i + 1], "::")) { i += 2; }
+            else if i + 1 < be && (is_id(&t[i], "self") && is_p(&t[i + 1], ".")) { i += 2; }
+            let helper = match t.get(i) { Some(Tk::Id(h)) if i + 1 < be && is_p(&t[i + 1], "(") => h.clone(), _ => continue };
+            if helper.starts_with("extract_") || helper == "Ok" || helper == "Err" { continue; }
+            let cp = match close_of(t, i + 1) { Some(x) => x, None => continue };
+            let mut j = cp + 1;
+            while j < be && (is_p(&t[j], "?") || is_p(&t[j], ";")) { j += 1; }
+            if j != be { continue; }
+            // the call's arguments: exactly the array (by reference or not)
+            let call_args: Vec<Tk> = t[i + 2..cp].iter().filter(|x| !is_p(x, "&")).cloned().collect();
+            if !(call_args.len() == 1 && is_id(&call_args[0], arr)) { continue; }
+            let (hs, hlb, hrb) = match fn_span(t, &helper) { Some(x) => x, None => continue };
+            let ps = param_names(t, hs + 2);
+            if ps.len() != 1 { continue; }
+            let mut body: Vec<Tk> = t[hlb + 1..hrb].to_vec();
+            let n = body.len();
+            rename_in(&mut body, 0, n, &ps[0], arr);
+            notes.push(format!("{}: arm {:?} calls the private helper `{}`: its body is read in place", fn_name, arm_names(a), helper));
+            // splice: replace the arm's body tokens by `{ body }` (an expression arm may lack braces)
+            let mut repl: Vec<Tk> = vec![Tk::P("{".into())];
+            repl.extend(body);
+            repl.push(Tk::P("}".into()));
+            let braced = bs > 0 && is_p(&t[bs - 1], "{");
+            if braced { t.splice(bs..be, repl[1..repl.len() - 1].iter().cloned()); } else { t.splice(bs..be, repl); }
+            done = false;
+            break;
+        }
+        if done { break; }
+        // spans moved
+        match fn_span(t, fn_name) { Some((_, l, r)) => { lb = l; rb = r; } None => return }
+    }
+    let _ = fs;
+    // (4) per arm: the loop index, the option word, the sub-command word
+    let (_, lb, rb) = match fn_span(t, fn_name) { Some(x) => x, None => return };
+    let mpos = match find_pat(t, lb, rb, "match cmd_name . as_str ( ) {", "") { Some((_, e, _)) => e - 1, None => return };
+    let arms = parse_arms(t, mpos);
+    for a in &arms {
+        let (bs, be) = a.body;
+        // loop index: `while X < ARR.len() {`
+        let loops: Vec<String> = find_all(t, bs, be, "while $i < $A . len ( ) {", arr).into_iter().map(|(_, _, c)| c[0].clone()).collect();
+        for v in loops.iter().collect::<BTreeSet<_>>() {
+            if v.as_str() != "i" { notes.push(format!("{}: arm {:?}: loop index `{}` read as `i`", fn_name, arm_names(a), v)); rename_in(t, bs, be, v, "i"); }
+        }
+        let fors: Vec<String> = find_all(t, bs, be, "for $i in ( $n .. $A . len ( ) ) . step_by ( 2 ) {", arr).into_iter().map(|(_, _, c)| c[0].clone()).collect();
+        for v in fors.iter().collect::<BTreeSet<_>>() {
+            if v.as_str() != "i" { notes.push(format!("{}: arm {:?}: loop index `{}` read as `i`", fn_name, arm_names(a), v)); rename_in(t, bs, be, v, "i"); }
+        }
+        // `match X.as_str() {` inside a `while` = the option word; at the top of the arm = the sub-command word
+        let whiles: Vec<(usize, usize)> = find_all(t, bs, be, "while i < $A . len ( ) {", arr).into_iter().filter_map(|(_, e, _)| close_of(t, e - 1).map(|c| (e - 1, c))).collect();
+        let ms: Vec<(usize, String)> = find_all(t, bs, be, "match $i . as_str ( ) {", arr).into_iter().map(|(s, _, c)| (s, c[0].clone())).collect();
+        for (pos, v) in ms {
+            let in_loop = whiles.iter().any(|(a, b)| pos > *a && pos < *b);
+            let canon = if in_loop { "opt" } else { "subcommand" };
+            if v != canon && v != "cmd_name" {
+                // only a word variable: defined by `let V = …to_uppercase();`
+                if find_pat(t, bs, pos, &format!("let {} =", v), arr).is_some() {
+                    notes.push(format!("{}: arm {:?}: word variable `{}` read as `{}`", fn_name, arm_names(a), v, canon));
+                    rename_in(t, bs, be, &v, canon);
+                }
+            }
+        }
+    }
 }
 
 /// the numeric type of every named field of every struct-like `Command` variant (`Set { ex: Option<i64>, … }` →
@@ -910,11 +1068,13 @@ pub struct Extracted {
     /// family name -> (text of a missing sub-command, what an unknown sub-command ZZZ answers)
     pub families: Vec<Row>,
     pub problems: Vec<String>,
+    /// renamed locals / inlined helpers the normalisation pass read through
+    pub notes: Vec<String>,
 }
 
 /// the shape rows of one grammar, from its source text
 pub fn extract(src: &str, fn_name: &str, style: Style, types: &FieldTypes) -> Extracted {
-    let mut out = Extracted { helpers: vec![], default_arm: "?".into(), rows: vec![], families: vec![], problems: vec![] };
+    let mut out = Extracted { helpers: vec![], default_arm: "?".into(), rows: vec![], families: vec![], problems: vec![], notes: vec![] };
     let mut toks = lex(src);
     // the zero-copy twin uses the same helpers under `_zc` names
     for t in toks.iter_mut() {
@@ -922,6 +1082,7 @@ pub fn extract(src: &str, fn_name: &str, style: Style, types: &FieldTypes) -> Ex
             if let Some(st) = s.strip_suffix("_zc") { *s = st.to_string(); }
         }
     }
+    normalise(&mut toks, fn_name, style, &mut out.notes);
     let t = &toks[..];
     let fpos = match find_pat(t, 0, t.len(), &format!("fn {} (", fn_name), "") { Some((s, _, _)) => s, None => { out.problems.push(format!("fn {} not found", fn_name)); return out; } };
     let arr: &'static str = if style == Style::Resp { "elements" } else { "args" };
@@ -1000,6 +1161,9 @@ pub fn extract(src: &str, fn_name: &str, style: Style, types: &FieldTypes) -> Ex
                     }
                 };
                 fr.insert("probe".into(), probe);
+                // every sub-command word of the family, also those whose arm does what the default arm does
+                let subwords: BTreeSet<String> = sub_arms.iter().filter(|x| !arm_is_default(x)).flat_map(|x| arm_names(x)).collect();
+                fr.insert("subwords".into(), subwords.into_iter().collect::<Vec<_>>().join(","));
                 out.families.push(fr);
                 for sa in &sub_arms {
                     if arm_is_default(sa) { continue; }
